@@ -30,7 +30,7 @@ fn run_set<S: PS>(ctx: &Ctx) -> Acc {
     // seeds whose A*s1 + s2 wraps past q / below 0 before reduction (about 1 in 10^4) come first:
     // the derivation recomputes t and must reduce it exactly as key generation does
     let rare: Vec<[u8; 32]> = rare_keygen_seeds(ctx, p, ctx.budget(24_000, 400_000) as usize).into_iter().filter(|r| r.tags.iter().any(|t| t.starts_with("t-wrap"))).map(|r| r.xi).collect();
-    let n_jobs = ctx.budget(24, 400) as usize + rare.len();
+    let n_jobs = ctx.budget(24, 2400) as usize + rare.len();
     let accs = par_map(n_jobs, |ji| {
         let mut acc = Acc::new();
         let mut g = Prng::derive(ctx.seed, &format!("c11-{}", p.name), ji as u64);
